@@ -484,6 +484,9 @@ func renderControl(w io.Writer, data controlData) error {
 		"multiline": func(strs string) string {
 			var b strings.Builder
 			s := bufio.NewScanner(strings.NewReader(strings.TrimSpace(strs)))
+			// no line limit: the default one (64 KiB) silently ends the
+			// description at the first longer line
+			s.Buffer(nil, len(strs)+1)
 			s.Scan()
 			b.Write(bytes.TrimSpace(s.Bytes()))
 			for s.Scan() {
